@@ -4,6 +4,8 @@ CONSTANTS
   NOps = {0, 1, 2, 3, 4}
   Buffers = {0, 1, 2}
   QCaps = {1, 2}
+  MaxPanics = 1
+  FifoSend = TRUE
   AtomicLast = TRUE
 INVARIANTS EmitSchedule
 CHECK_DEADLOCK FALSE
